@@ -39,6 +39,226 @@ def lean_text(s: str) -> str:
     return "[" + ", ".join(str(ord(c)) for c in s) + "]"
 
 
+# ---------------------------------------------------------------------------
+# straight-line code of format_int_roman / format_int_alpha  ->  Gen/LabelCode.lean
+#
+# Shape accepted (anything else is Untranslatable):
+#     assert <test>; result: List[str] = []; [index = 0]
+#     while <cond>: <body>            body = assignments, divmod, result.insert/append, if/elif/else
+#     [result.reverse()]; return "".join(result)
+# Emitted per function: `_pre` (assert), `_cond` (while test), `_body` (ONE pass through the loop body,
+# state in -> state out, IndexError as an error), `_post` (what is returned from the final `result`).
+# Python rebinding = Lean `let` shadowing; statements after an `if` are copied into both branches.
+
+TABLES = {"ROMAN_ONES": "text", "ROMAN_FIVES": "text"}      # list of str: element kind
+CMP = {ast.Eq: "=", ast.NotEq: "≠", ast.Lt: "<", ast.LtE: "≤", ast.Gt: ">", ast.GtE: "≥"}
+
+
+def is_ascii_lowercase(e: ast.expr) -> bool:
+    return (isinstance(e, ast.Attribute) and e.attr == "ascii_lowercase" and isinstance(e.value, ast.Name)
+            and e.value.id == "string")
+
+
+class Body:
+    def __init__(self, state):
+        self.state = state                   # names of the loop state, in output order
+        self.kinds = {"value": "int", "index": "int", "remainder": "int", "result": "list"}
+        self.tmp = 0
+
+    def expr(self, e: ast.expr, binds):
+        """-> (lean text, kind); list/str subscripts are hoisted into `binds` (they can raise)."""
+        if isinstance(e, ast.Constant) and isinstance(e.value, bool):
+            return ("true" if e.value else "false"), "bool"
+        if isinstance(e, ast.Constant) and isinstance(e.value, int):
+            return (str(e.value) if e.value >= 0 else f"({e.value})"), "int"
+        if isinstance(e, ast.Name):
+            if e.id not in self.kinds:
+                raise P.Untranslatable(f"unknown name {e.id}")
+            return e.id, self.kinds[e.id]
+        if isinstance(e, ast.Call) and isinstance(e.func, ast.Name) and e.func.id == "len" and len(e.args) == 1 \
+                and is_ascii_lowercase(e.args[0]):
+            return "(ascii_lowercase.length : Int)", "int"
+        if isinstance(e, ast.Subscript):
+            idx, k = self.expr(e.slice, binds)
+            if k != "int":
+                raise P.Untranslatable("subscript is not an integer")
+            self.tmp += 1
+            t = f"t{self.tmp}"
+            if isinstance(e.value, ast.Name) and e.value.id in TABLES:
+                binds.append((t, f"pyIndex {e.value.id} ({idx})"))
+            elif is_ascii_lowercase(e.value):
+                binds.append((t, f"pyStrIndex ascii_lowercase ({idx})"))
+            else:
+                raise P.Untranslatable("subscript of an unknown table")
+            return t, "text"
+        if isinstance(e, ast.BinOp):
+            a, ka = self.expr(e.left, binds)
+            b, kb = self.expr(e.right, binds)
+            if isinstance(e.op, ast.Mult) and ka == "text" and kb == "int":
+                return f"(pyRepeat {a} ({b}))", "text"
+            if ka == kb == "int" and type(e.op) in (ast.Add, ast.Sub, ast.Mult):
+                op = {ast.Add: "+", ast.Sub: "-", ast.Mult: "*"}[type(e.op)]
+                return f"({a} {op} {b})", "int"
+            raise P.Untranslatable("binary operator outside the subset")
+        if isinstance(e, ast.Compare):
+            parts = []
+            left, kl = self.expr(e.left, binds)
+            for op, right in zip(e.ops, e.comparators):
+                r, kr = self.expr(right, binds)
+                if type(op) not in CMP or kl != "int" or kr != "int":
+                    raise P.Untranslatable("comparison outside the subset")
+                parts.append(f"decide ({left} {CMP[type(op)]} {r})")
+                left = r
+            return "(" + " && ".join(parts) + ")", "bool"
+        if isinstance(e, ast.IfExp):
+            c, kc = self.expr(e.test, binds)
+            a, ka = self.expr(e.body, binds)
+            b, kb = self.expr(e.orelse, binds)
+            if kc != "bool" or ka != kb:
+                raise P.Untranslatable("conditional expression outside the subset")
+            return f"(if {c} = true then {a} else {b})", ka
+        raise P.Untranslatable(f"expression {ast.dump(e)[:60]} outside the subset")
+
+    @staticmethod
+    def wrap(binds, line, ind):
+        return [f"{ind}(({rhs}).bind fun {t} =>" for t, rhs in binds], line, ")" * len(binds)
+
+    def block(self, stmts, ind):
+        if not stmts:
+            return [f"{ind}Except.ok ({', '.join(self.state)})"]
+        s, rest = stmts[0], stmts[1:]
+        binds = []
+        if isinstance(s, ast.If):
+            c, kc = self.expr(s.test, binds)
+            if kc != "bool" or binds:
+                raise P.Untranslatable("if test outside the subset")
+            saved = dict(self.kinds)
+            a = self.block(list(s.body) + list(rest), ind + "  ")
+            self.kinds = dict(saved)
+            b = self.block(list(s.orelse) + list(rest), ind + "  ")
+            self.kinds = saved
+            return [f"{ind}(if {c} = true then"] + a + [f"{ind}else"] + b + [f"{ind})"]
+        if isinstance(s, ast.Assign) and len(s.targets) == 1 and isinstance(s.targets[0], ast.Tuple):
+            names = [t.id for t in s.targets[0].elts if isinstance(t, ast.Name)]
+            v = s.value
+            if not (len(names) == 2 and isinstance(v, ast.Call) and isinstance(v.func, ast.Name)
+                    and v.func.id == "divmod" and len(v.args) == 2):
+                raise P.Untranslatable("tuple assignment is not divmod")
+            a, ka = self.expr(v.args[0], binds)
+            b, kb = self.expr(v.args[1], binds)
+            if ka != "int" or kb != "int" or binds:
+                raise P.Untranslatable("divmod arguments")
+            self.kinds[names[0]] = self.kinds[names[1]] = "int"
+            lines = [f"{ind}let q_ := pyDiv {a} {b}; let r_ := pyMod {a} {b};",
+                     f"{ind}let {names[0]} := q_; let {names[1]} := r_;"]
+            return lines + self.block(rest, ind)
+        if isinstance(s, ast.Assign) and len(s.targets) == 1 and isinstance(s.targets[0], ast.Name):
+            v, k = self.expr(s.value, binds)
+            name = s.targets[0].id
+            pre, line, close = self.wrap(binds, f"{ind}let {name} := {v};", ind)
+            self.kinds[name] = k
+            return pre + [line] + self.block(rest, ind) + ([ind + close] if close else [])
+        if isinstance(s, ast.AugAssign) and isinstance(s.target, ast.Name) and type(s.op) in (ast.Add, ast.Sub):
+            v, k = self.expr(s.value, binds)
+            name = s.target.id
+            if k != "int" or self.kinds.get(name) != "int":
+                raise P.Untranslatable("augmented assignment outside the subset")
+            op = "+" if isinstance(s.op, ast.Add) else "-"
+            pre, line, close = self.wrap(binds, f"{ind}let {name} := {name} {op} {v};", ind)
+            return pre + [line] + self.block(rest, ind) + ([ind + close] if close else [])
+        if isinstance(s, ast.Expr) and isinstance(s.value, ast.Call) and isinstance(s.value.func, ast.Attribute) \
+                and isinstance(s.value.func.value, ast.Name) and s.value.func.value.id == "result":
+            m, args = s.value.func.attr, s.value.args
+            if m == "insert" and len(args) == 2:
+                k, kk = self.expr(args[0], binds)
+                x, kx = self.expr(args[1], binds)
+                if kk != "int" or kx != "text":
+                    raise P.Untranslatable("result.insert arguments")
+                line = f"{ind}let result := pyInsert result ({k}) {x};"
+            elif m == "append" and len(args) == 1:
+                x, kx = self.expr(args[0], binds)
+                if kx != "text":
+                    raise P.Untranslatable("result.append argument")
+                line = f"{ind}let result := result ++ [{x}];"
+            else:
+                raise P.Untranslatable(f"result.{m}")
+            pre, line, close = self.wrap(binds, line, ind)
+            return pre + [line] + self.block(rest, ind) + ([ind + close] if close else [])
+        raise P.Untranslatable(f"statement {ast.dump(s)[:60]} outside the subset")
+
+
+def is_join_result(e) -> bool:
+    return (isinstance(e, ast.Call) and isinstance(e.func, ast.Attribute) and e.func.attr == "join"
+            and isinstance(e.func.value, ast.Constant) and e.func.value.value == "" and len(e.args) == 1
+            and isinstance(e.args[0], ast.Name) and e.args[0].id == "result")
+
+
+def numeral_function(mod, name: str, state):
+    fn = P.find_function(mod, name)
+    body = [s for s in fn.body if not (isinstance(s, ast.Expr) and isinstance(s.value, ast.Constant)
+                                       and isinstance(s.value.value, str))]
+    if [a.arg for a in fn.args.args] != ["value"]:
+        raise P.Untranslatable(f"{name}: parameters")
+    i = 0
+    if not isinstance(body[i], ast.Assert):
+        raise P.Untranslatable(f"{name}: no leading assert")
+    b = Body(state)
+    pre, k = b.expr(body[i].test, [])
+    i += 1
+    s = body[i]
+    if not (isinstance(s, ast.AnnAssign) and isinstance(s.target, ast.Name) and s.target.id == "result"
+            and isinstance(s.value, ast.List) and not s.value.elts):
+        raise P.Untranslatable(f"{name}: result is not initialised with []")
+    i += 1
+    if "index" in state:
+        s = body[i]
+        if not (isinstance(s, ast.Assign) and isinstance(s.targets[0], ast.Name) and s.targets[0].id == "index"
+                and isinstance(s.value, ast.Constant) and s.value.value == 0 and not isinstance(s.value.value, bool)):
+            raise P.Untranslatable(f"{name}: index is not initialised with 0")
+        i += 1
+    w = body[i]
+    if not isinstance(w, ast.While) or w.orelse:
+        raise P.Untranslatable(f"{name}: no while loop")
+    cond, kc = b.expr(w.test, [])
+    lines = b.block(list(w.body), "  ")
+    i += 1
+    post = "result"
+    if isinstance(body[i], ast.Expr) and isinstance(body[i].value, ast.Call) \
+            and isinstance(body[i].value.func, ast.Attribute) and body[i].value.func.attr == "reverse" \
+            and isinstance(body[i].value.func.value, ast.Name) and body[i].value.func.value.id == "result" \
+            and not body[i].value.args:
+        post = "result.reverse"
+        i += 1
+    if not (i == len(body) - 1 and isinstance(body[i], ast.Return) and is_join_result(body[i].value)):
+        raise P.Untranslatable(f"{name}: tail is not `return \"\".join(result)`")
+    types = {"value": "Int", "index": "Int", "result": "List CodePoints"}
+    params = " ".join(f"({v} : {types[v]})" for v in state)
+    ret = " × ".join(types[v] for v in state)
+    out = [f"/-- `assert` at the head of `{name}` -/\ndef {name}_pre (value : Int) : Bool := {pre}\n\n",
+           f"/-- the `while` test of `{name}` -/\ndef {name}_cond (value : Int) : Bool := {cond}\n\n",
+           f"/-- ONE pass through the body of the `while` loop of `{name}` -/\n"
+           f"def {name}_body {params} : Except PyErr ({ret}) :=\n" + "\n".join(lines) + "\n\n",
+           f"/-- what `{name}` returns from the final `result` -/\n"
+           f"def {name}_post (result : List CodePoints) : CodePoints := ({post}).flatten\n\n"]
+    return "".join(out)
+
+
+def generate_code(lean_dir: str, mod):
+    import string
+    out = [P.HEADER.format(src="pdfminer/utils.py", ns="LabelCode")
+           .replace("import PdfVerif.Model.Prelude",
+                    "import PdfVerif.Model.LabelsPy\nimport PdfVerif.Gen.LabelTables")]
+    out.append("open PdfVerif.LabelsPy PdfVerif.Gen.LabelTables\n\n")
+    out.append("/-- `string.ascii_lowercase` (standard library constant, read at generation time) -/\n"
+               "def ascii_lowercase : CodePoints := " + lean_text(string.ascii_lowercase) + "\n\n")
+    out.append(numeral_function(mod, "format_int_roman", ["value", "index", "result"]))
+    out.append(numeral_function(mod, "format_int_alpha", ["value", "result"]))
+    out.append("end PdfVerif.Gen.LabelCode\n")
+    path = os.path.join(lean_dir, "PdfVerif", "Gen", "LabelCode.lean")
+    P.write_if_changed(path, "".join(out))
+    return path
+
+
 def generate(lean_dir: str):
     mod = P.parse_file("pdfminer/utils.py")
     out = [P.HEADER.format(src="pdfminer/utils.py", ns="LabelTables")]
@@ -52,4 +272,4 @@ def generate(lean_dir: str):
     out.append("end PdfVerif.Gen.LabelTables\n")
     path = os.path.join(lean_dir, "PdfVerif", "Gen", "LabelTables.lean")
     P.write_if_changed(path, "".join(out))
-    return [path]
+    return [path, generate_code(lean_dir, mod)]
